@@ -119,6 +119,18 @@ class C13(Prop):
             yield ("FRAME " + hx(fr), "internal-length-beyond-payload", True)
 
 
+def preamble_like_frames(r):
+    """valid frames whose own header / first payload bytes equal the preamble value 0xD3: second byte
+    (reserved bits 110100 with L in 768..1023), third byte (L = 211, 467, 723, 979), both, and payloads
+    starting with 0xD3"""
+    out = []
+    for resv, L in ((52, 768), (52, 1023), (52, 979), (0, 211), (0, 467), (3, 723), (52, 800)):
+        out.append(mk_frame(payload_for(r, L, r.choice(SUPPORTED)), resv))
+    out.append(mk_frame(b"\xd3\xd3\xd3" + rand_bytes(r, 4)))
+    out.append(mk_frame(b"\xd3\x00\x00" + rand_bytes(r, 3), 52))
+    return out
+
+
 def frames_1029_overlong(r, n):
     """1029 frames whose byte-count field announces 1..8 bytes more than the payload holds, followed by ASCII"""
     out = []
@@ -185,6 +197,12 @@ class C05(Prop):
             for cut in (1, 2, 3, 4):
                 yield ("SCAN " + hx(g0 + f[:-cut]), "special-checksum-truncated", True)
                 yield ("ITER " + hx(f + f[:-cut]), "special-checksum-truncated", True)
+        for f in preamble_like_frames(r):
+            yield ("SCAN " + hx(f), "preamble-like-header", True)
+            yield ("ITER " + hx(b"\xd3" + f + b"\xd3\xd3" + f), "preamble-like-header", True)
+            for cut in (1, 2, 3, 4, 5, 6, len(f) - 1):
+                yield ("SCAN " + hx(f[:cut]), "preamble-like-header-truncated", True)
+                yield ("SCAN " + hx(b"\x00" + f[:cut]), "preamble-like-header-truncated", True)
         # every frame length class as the very end of the buffer, behind garbage / frames / nothing
         for L in (0, 0, 1, 2, 3, 5):
             f = mk_frame(payload_for(r, L, r.choice(SUPPORTED)))
@@ -238,10 +256,11 @@ class C06(Prop):
                 ops += ["s"] * r.choice([0, 0, 1, 1, 2, 3])
             yield ("SCHED " + "|".join(ops), "schedule", len(parts) >= 2)
         frames = [mk_frame(payload_for(r, 6, 1005)), mk_frame(b""), mk_frame(payload_for(r, 1, 1005)), mk_frame(payload_for(r, 2, 1077), 63)]
+        frames += preamble_like_frames(r)
         frames += [frame_with_crc(r, r.choice([3, 5, 8]), c, r.choice(SUPPORTED)) for c in special_crcs(ctx.repo)]
         for f in frames:
             pre = rand_bytes(r, 2).replace(b"\xd3", b"\x03")
-            for cut in range(len(f) + 1):
+            for cut in (range(len(f) + 1) if len(f) < 80 else list(range(0, 9)) + [len(f) - k for k in range(0, 7)] + [r.randrange(9, len(f) - 6)]):
                 s = pre + f + f
                 yield ("FEED " + hx(s[:2 + cut]) + "|" + hx(s[2 + cut:]), "cut-at-every-offset", True)
                 if cut in (len(f) - 1, len(f) - 2, len(f) - 3, 1, 2, 3, 5):
